@@ -123,7 +123,7 @@ def run_multi(cx, cls, max_len):
                     break
                 cx.n += 1
         # length mismatch
-        for la, lb_ in ((n, n + 1), (n + 1, n)):
+        for la, lb_ in ((n, n + 1), (n + 1, n), (n, 0), (0, n), (n + 2, 1), (1, n + 2)):
             try:
                 cls(name='m', lower_bounds=[0.0] * la, upper_bounds=[1.0] * lb_)
                 cx.fail(what, 'length-mismatch-accepted', {'n_lower': la, 'n_upper': lb_})
@@ -237,7 +237,7 @@ PERM_ITEMS = {
     3: [[3, 1, 2], ['c', 'a', 'b'], [2, 'x', 1], [0.5, 1.5, 1]],
     4: [[3, 1, 4, 2], ['d', 'a', 'c', 'b'], [1, 'a', 2, 'b'], [0.5, 4, 2.5, 1]],
 }
-PERM_VALUES = [0, 0.5, 1, 2, 3]
+PERM_VALUES = [-1, 0, 0.5, 1, 2, 3]
 
 
 def run_permutation(cx, max_len):
@@ -256,7 +256,7 @@ def run_permutation(cx, max_len):
             for vec in itertools.product(PERM_VALUES, repeat=n):
                 cx.n += 1
                 case = {'items': repr(items), 'value': list(vec)}
-                for form in (list(vec), np.array(vec, dtype=float), tuple(vec)):
+                for form in (list(vec), np.array(vec, dtype=float), tuple(vec), np.array(vec)):
                     r = v.correct(form)
                     if not isinstance(r, list) or sorted(r) != ident or any(isinstance(x, bool) or not isinstance(x, numbers.Integral) for x in r):
                         cx.fail('PermutationVariable', 'correct-not-a-permutation', dict(case, result=repr(r)))
@@ -274,7 +274,7 @@ def run_permutation(cx, max_len):
                     if sorted(map(repr, d)) != sorted(map(repr, items)):
                         cx.fail('PermutationVariable', 'decode-not-a-rearrangement', dict(case, decoded=repr(d)))
                         break
-    cx.samples.append({'type': 'PermutationVariable', 'items': [3, 1, 4, 2], 'values': 'all 5^4 vectors over ' + str(PERM_VALUES)})
+    cx.samples.append({'type': 'PermutationVariable', 'items': [3, 1, 4, 2], 'values': 'all 6^4 vectors over ' + str(PERM_VALUES)})
 
 
 def member(v, x):
